@@ -105,7 +105,8 @@ Definition adj_of (shape : list Z) (a : adjspec) : Z -> list Z :=
 Definition compute (shape : list Z) (a : adjspec) (vals : list (option Z))
            (minv : option Z) (cs : list crit) : list tree :=
   let indep := indep_of cs in
-  relabel_forest (make_trunk indep (run (adj_of shape a) indep (order_of (kept vals minv)))).
+  (* the trunk list is left in the order of the final identifiers (fix F35) *)
+  sort_by tid (relabel_forest (make_trunk indep (run (adj_of shape a) indep (order_of (kept vals minv))))).
 
 (* observables compared with the implementation *)
 Definition sview (f : list tree) : list (Z * (Z * (list Z * list Z))) :=
